@@ -5,6 +5,7 @@ mod expr;
 mod kem;
 mod pathreq;
 mod ratchet;
+mod resume;
 mod treemath;
 mod window;
 
@@ -23,6 +24,7 @@ fn main() {
         "pathreq" => pathreq::run(&a[2], &a[3]),
         "ratchet" => ratchet::run(&a[2], &a[3]),
         "admission" => admission::run(&a[2], &a[3]),
+        "resume" => resume::run(&a[2], &a[3]),
         _ => std::process::exit(2),
     }
 }
